@@ -220,4 +220,94 @@ in the access list, so `i` is no input; rejected -/
 example : inputs (.loop 0 (.var 0) (.lit 5) (.lit 1) .skip) = [] := by decide
 example : ¬ WholeFirstWrites (.loop 0 (.var 0) (.lit 5) (.lit 1) .skip) := by decide
 
+/-! ## Regions of calls: non-local (module) variables reached through kernels / routines
+
+`inputsCalls` / `outputsCalls` merge the callees' own access summaries (the pinned
+`_resolve_calls_and_unknowns`).  The semantic reference is the region with the callee bodies
+inlined, `seqs bodies`: the merged outputs are complete, and the merged inputs contain every
+input of the inlined region (they over-approximate: a variable first written by an earlier
+callee and read by a later one is still listed). -/
+
+theorem sacc_seqs_cons (b : Stmt) (r : List Stmt) : sacc (seqs (b :: r)) = sacc b ++ sacc (seqs r) := by
+  cases r with
+  | nil => simp [seqs, sacc]
+  | cons c r => simp [seqs, sacc]
+
+theorem mem_unionMap {f : Stmt → List Nat} {bodies : List Stmt} {x : Nat} :
+    x ∈ unionMap f bodies ↔ ∃ b ∈ bodies, x ∈ f b := by
+  induction bodies with
+  | nil => simp [unionMap]
+  | cons b r ih => simp [unionMap, ih]
+
+theorem written_seqs {bodies : List Stmt} {x : Nat} (h : isWritten (sacc (seqs bodies)) x = true) :
+    ∃ b ∈ bodies, isWritten (sacc b) x = true := by
+  induction bodies with
+  | nil => simp [seqs, sacc, isWritten] at h
+  | cons b r ih =>
+    rw [sacc_seqs_cons, isWritten, List.any_append, Bool.or_eq_true] at h
+    rcases h with h | h
+    · exact ⟨b, by simp, h⟩
+    · obtain ⟨c, hc, hw⟩ := ih h
+      exact ⟨c, List.mem_cons_of_mem _ hc, hw⟩
+
+/-- **outputs are complete for regions of calls**: a non-local variable that the inlined
+region changes is written by some callee, hence in the merged output list -/
+theorem C12_outputs_calls (G : List Nat) (bodies : List Stmt) (σ : Store) (x : Nat) (i j : Int)
+    (hG : x ∈ G) (h : (exec (seqs bodies) σ) (x, i, j) ≠ σ (x, i, j)) : x ∈ outputsCalls G bodies := by
+  have h1 := (C12_outputs_char _ _).mp (C12_outputs (seqs bodies) σ x i j h)
+  obtain ⟨b, hb, hw⟩ := written_seqs h1
+  simp only [outputsCalls, List.mem_filter, mem_dedup, mem_unionMap, List.contains_iff_mem]
+  exact ⟨⟨b, hb, (C12_outputs_char _ _).mpr hw⟩, hG⟩
+
+theorem inputs_seqs {bodies : List Stmt} {x : Nat} (h : x ∈ inputs (seqs bodies)) :
+    ∃ b ∈ bodies, x ∈ inputs b := by
+  induction bodies with
+  | nil => simp [seqs, inputs, inputsE, sacc, varsOf, dedup] at h
+  | cons b r ih =>
+    rw [C12_inputs_char, sacc_seqs_cons] at h
+    obtain ⟨⟨e, he, hv⟩, hf⟩ := h
+    unfold writtenFirst firstOf at hf
+    rw [List.find?_append] at hf
+    cases hb : (sacc b).find? (fun e => e.var == x) with
+    | some e' =>
+      rw [hb] at hf
+      try simp only [Option.or] at hf
+      refine ⟨b, by simp, (C12_inputs_char _ _).mpr ⟨⟨e', List.mem_of_find?_eq_some hb, ?_⟩, ?_⟩⟩
+      · simpa using List.find?_some hb
+      · unfold writtenFirst firstOf; rw [hb]; exact hf
+    | none =>
+      rw [hb] at hf
+      try simp only [Option.or] at hf
+      have hnb : e ∉ sacc b := by
+        intro hmem
+        have := List.find?_eq_none.mp hb e hmem
+        simp [hv] at this
+      have her : e ∈ sacc (seqs r) := by
+        rcases List.mem_append.mp he with h1 | h1
+        · exact absurd h1 hnb
+        · exact h1
+      obtain ⟨c, hc, hin⟩ := ih ((C12_inputs_char _ _).mpr ⟨⟨e, her, hv⟩, hf⟩)
+      exact ⟨c, List.mem_cons_of_mem _ hc, hin⟩
+
+/-- **inputs are complete for regions of calls** relative to the inlined region: every
+non-local input of `seqs bodies` is in the merged input list.  Together with
+`C12_inputs_partial` / `C12_replay_partial` for `seqs bodies` (agreement on a superset of the
+inputs implies agreement on the inputs) the partial theorems carry over. -/
+theorem C12_inputs_calls_super (G : List Nat) (bodies : List Stmt) (x : Nat) (hG : x ∈ G)
+    (h : x ∈ inputs (seqs bodies)) : x ∈ inputsCalls G bodies := by
+  obtain ⟨b, hb, hin⟩ := inputs_seqs h
+  simp only [inputsCalls, List.mem_filter, mem_dedup, mem_unionMap, List.contains_iff_mem]
+  exact ⟨⟨b, hb, hin⟩, hG⟩
+
+/-- reader kernel then writer kernel on the module variable 0 (`F(1) = F(1) + g` ; `g = 2`):
+the merged lists contain `g` as input and output in both call orders -/
+def readerK : Stmt := .store1 1 (.lit 1) (.bin .add (.idx1 1 (.lit 1)) (.var 0))
+def writerK : Stmt := .seq (.assign 0 (.lit 2)) readerK
+
+example : inputsCalls [0] [readerK, writerK] = [0] ∧ outputsCalls [0] [readerK, writerK] = [0] := by decide
+example : inputsCalls [0] [writerK, readerK] = [0] ∧ outputsCalls [0] [writerK, readerK] = [0] := by decide
+/-- the inlined reference needs `g` as input only when the reader runs first -/
+example : (inputs (seqs [readerK, writerK])).contains 0 ∧ ¬ (inputs (seqs [writerK, readerK])).contains 0 := by
+  decide
+
 end C12
